@@ -114,6 +114,8 @@ type qgServer struct {
 	rw        bool
 	nIndex    int
 	watch     []string
+	last      qgSnap // snapshot after the previous tool call
+	lastValid bool
 }
 
 func connID(c *sql.Conn) string {
@@ -142,7 +144,7 @@ func openServer(dir, template string, rw bool, watch []string) (s *qgServer, err
 		return nil, err
 	}
 	s = &qgServer{dir: dir, file: filepath.Join(dir, "trace.sqlite3"), ids: map[string]int{}, rw: rw,
-		watch: append([]string{dir}, watch...)}
+		watch: watch}
 	if err := copyFile(s.file, template); err != nil {
 		return nil, err
 	}
@@ -255,6 +257,12 @@ func (s *qgServer) digest() (string, error) {
 			fmt.Fprintf(h, "%s=%d\n", p, v)
 		}
 	}
+	// the journal mode is part of the database file (a switch away from WAL rewrites its header and
+	// removes the -wal/-shm siblings)
+	var jm string
+	if err := s.observer.QueryRow("PRAGMA journal_mode").Scan(&jm); err == nil {
+		fmt.Fprintf(h, "journal_mode=%s\n", strings.ToLower(jm))
+	}
 	return hex.EncodeToString(h.Sum(nil)), nil
 }
 
@@ -308,10 +316,16 @@ func (s *qgServer) tool(st qgStep) (o qgObs, err error) {
 		}
 	}
 	defer release()
-	before, err := s.snap()
-	if err != nil {
-		return o, err
+	// nothing touches the files between two consecutive tool calls, so the snapshot taken after the
+	// previous call serves as this call's "before" (probes and overlapping server writes invalidate it)
+	before := s.last
+	if !s.lastValid {
+		before, err = s.snap()
+		if err != nil {
+			return o, err
+		}
 	}
+	s.lastValid = false
 	ctx := context.Background()
 	cancel := func() {}
 	switch {
@@ -423,6 +437,7 @@ func (s *qgServer) tool(st qgStep) (o qgObs, err error) {
 	o.WALChanged = before.wal != after.wal
 	o.DataChanged = before.data != after.data
 	o.Added, o.Removed = diffLists(before.files, after.files)
+	s.last, s.lastValid = after, !st.Overlap
 	return o, nil
 }
 
@@ -442,6 +457,7 @@ func (s *qgServer) indexExists(name string) bool {
 // connection: a read, a write, and the server's real on-demand index build.
 func (s *qgServer) probe() (o qgObs, err error) {
 	o.Op = "probe"
+	s.lastValid = false
 	ctx := context.Background()
 	c1, err := s.reader.DB.Conn(ctx)
 	if err != nil {
@@ -537,7 +553,7 @@ func runQueryGuard(raw json.RawMessage) (any, error) {
 	for bi, b := range in.Behaviours {
 		res := qgResult{ID: b.ID}
 		hung := false
-		srv, err := openServer(filepath.Join(work, fmt.Sprintf("b%d", bi)), template, b.Mode != "ro", []string{cwd, tmp})
+		srv, err := openServer(filepath.Join(work, fmt.Sprintf("b%d", bi)), template, b.Mode != "ro", []string{wd})
 		if err != nil {
 			return nil, fmt.Errorf("behaviour %d: %w", b.ID, err)
 		}
